@@ -34,7 +34,10 @@ type Packet struct {
 	SName  string
 	File   string
 	// Opts: key present = option present; a nil or zero-length value is
-	// "present with an empty value".
+	// "present with an empty value". On an *input* packet the two are kept
+	// apart: nil is what the decoder stores for a zero-length option (and a
+	// hand-built nil slice), non-nil zero-length is a hand-built []byte{}
+	// (see echo). Everywhere else they are the same value.
 	Opts map[uint8][]byte
 }
 
@@ -162,14 +165,22 @@ func (v *verifier) optAbsent(clause string, code uint8) {
 	}
 }
 
-// echo: the three-way rule for an option copied from the input.
-// non-empty in the input => same bytes; absent => absent (only when
-// absentMeansAbsent); present-but-empty => absent or empty (DESIGN §8a-3).
+// echo: the rule for an option copied from the input.
+//
+//   - non-empty in the input            => same bytes;
+//   - absent                            => absent (only when absentMeansAbsent);
+//   - present with a nil value          => absent. This is what the decoder
+//     stores for a zero-length option on the wire ("3d 00"), and a hand-built
+//     nil slice: the statement says "omits them otherwise";
+//   - present with a non-nil zero-length value (only a hand-built []byte{})
+//     => absent or empty (DESIGN §8a-3).
 func (v *verifier) echo(clause string, in *Packet, code uint8, absentMeansAbsent bool) {
 	iv, ok := in.Opts[code]
 	switch {
 	case ok && len(iv) > 0:
 		v.optIs(clause+":nonempty", code, iv)
+	case ok && iv == nil:
+		v.optAbsent(clause+":empty-nil", code)
 	case ok:
 		if got, has := v.out.Opts[code]; has && len(got) != 0 {
 			v.add(clause+":empty", fmt.Sprintf("option %d = %d bytes %s", code, len(got), short(got)), fmt.Sprintf("option %d absent or empty", code))
